@@ -203,8 +203,79 @@ def replay_process(d):
             other.kill()
 
 
+def replay_pool_race(d):
+    """Two real threads of this process request a SHARED path_lock on the same unheld path at the same time; the first
+    os.open of the file is held back until the second thread has completed its request (forced schedule of the race on
+    the descriptor pool).  While both hold the lock, a second process asks for the exclusive lock without blocking: it
+    must be refused; after both released, it must be granted."""
+    tmp = tempfile.mkdtemp(prefix='c15race')
+    path = os.path.join(tmp, 'lockfile')
+    open(path, 'w').close()
+    real_open = os.open
+    first = threading.Event()
+    go = threading.Event()
+    seen = []
+
+    class SlowOs:
+        def __getattr__(self, k):
+            return getattr(os, k)
+
+        def open(self, p, flags, *a):
+            if os.path.normpath(p) == os.path.normpath(path) and not seen:
+                seen.append(1)
+                first.set()
+                go.wait(3.0)           # the rival completes its whole request meanwhile
+            return real_open(p, flags, *a)
+    L.os = SlowOs()
+    probe = ("import fcntl,sys,os\nfd=os.open(sys.argv[1],os.O_RDWR)\n"
+             "try:\n  fcntl.lockf(fd, fcntl.LOCK_EX|fcntl.LOCK_NB); print('GRANTED')\n"
+             "except OSError: print('REFUSED')\n")
+    res = {}
+    entered = {1: threading.Event(), 2: threading.Event()}
+    leave = threading.Event()
+
+    def user(i):
+        try:
+            with L.path_lock(path, shared=True):
+                entered[i].set()
+                leave.wait(10.0)
+            res[i] = 'ok'
+        except BaseException as e:  # noqa
+            res[i] = type(e).__name__
+            entered[i].set()
+    try:
+        a = threading.Thread(target=user, args=(1,), daemon=True)
+        a.start()
+        first.wait(3.0)
+        b = threading.Thread(target=user, args=(2,), daemon=True)
+        b.start()
+        entered[2].wait(3.0)
+        go.set()
+        entered[1].wait(3.0)
+        if not (entered[1].is_set() and entered[2].is_set()) or res:
+            return dict(ok=None, note=f'the two shared requests did not both complete: {res}')
+        held = subprocess.run([sys.executable, '-c', probe, path], capture_output=True, text=True).stdout.strip()
+        leave.set()
+        a.join(5.0)
+        b.join(5.0)
+        after = subprocess.run([sys.executable, '-c', probe, path], capture_output=True, text=True).stdout.strip()
+        if held != 'REFUSED':
+            return dict(ok=False, what='two threads hold the path shared, yet another process was GRANTED the exclusive '
+                                       'lock (the kernel lock was dropped when a redundant descriptor was closed)',
+                        while_held=held, after_release=after)
+        if after != 'GRANTED':
+            return dict(ok=False, what='lock still held in the kernel after both users left', after_release=after)
+        return dict(ok=True, while_held=held, after_release=after)
+    finally:
+        L.os = os
+        leave.set()
+
+
 if __name__ == '__main__':
     d = json.loads(sys.argv[1])
+    if d['op'] == 'pool_race':
+        print('REPLAY ' + json.dumps(replay_pool_race(d)), flush=True)
+        os._exit(0)
     res = replay_thread(d) if d['op'] in ('sh_enter', 'ex_enter', 'sh_exit', 'ex_exit') else replay_process(d)
     print('REPLAY ' + json.dumps(res), flush=True)
     os._exit(0)
